@@ -222,6 +222,16 @@ impl<'tcx> Cx<'tcx> {
                         }
                     }
                 }
+                if let Some(pt) = pointee {
+                    // a reference to an aggregate constant (e.g. a promoted `&[KEYWORD_A, KEYWORD_B]`): structured view of the pointee
+                    if matches!(pt.kind(), ty::Array(..) | ty::Tuple(..) | ty::Adt(..)) {
+                        let iv = ConstValue::Indirect { alloc_id, offset: off };
+                        if let Some(a) = self.destructure(iv, pt, env, 0) {
+                            o.push(("agg", a));
+                            done = true;
+                        }
+                    }
+                }
                 if !done {
                     o.push(("opaque", s(format!("{:?}", v))));
                 }
